@@ -260,6 +260,138 @@ impl SimB {
     }
 }
 
+/// Route every market / account item and disconnect notice through a real reconnecting stream per
+/// exchange link (`init_reconnecting_stream` + backoff + `with_reconnection_events` +
+/// `forward_to`, wired like `SystemBuild::init`), on a paused runtime; step k happens at virtual
+/// time 10(k+1) ms. Returns the events in the order the shared feed received them.
+fn feed_through_reconnecting_links(w: &WorldB, sc: &ScenarioB) -> Result<Vec<Ev>, String> {
+    use barter_data::streams::{
+        consumer::StreamKey,
+        reconnect::stream::{ReconnectingStream, ReconnectionBackoffPolicy, init_reconnecting_stream},
+    };
+    use barter_integration::channel::{Tx, mpsc_unbounded};
+    use std::{collections::VecDeque, sync::{Arc, Mutex}, time::Duration};
+
+    #[derive(Clone)]
+    enum LinkItem {
+        Market(barter_data::event::MarketEvent<InstrumentIndex, barter_data::event::DataKind>),
+        Account(barter_execution::AccountEvent),
+    }
+    // per (exchange, is_market): connections = (items with their instants, end instant)
+    type Conn = (Vec<(u64, LinkItem)>, Option<u64>);
+    let mut links: Vec<Vec<Conn>> = vec![vec![(vec![], None)]; w.n_ex * 2];
+    let mut direct: Vec<(u64, Ev)> = Vec::new();
+    let mut k = 0u64;
+    for st in &sc.steps {
+        if !w.ev_valid(sc, &st.ev) {
+            continue;
+        }
+        k += 1;
+        let at = 10 * k;
+        let ev = w.to_event(sc, &st.ev);
+        match (&st.ev, ev) {
+            (EvB::MarketReconnecting { ex }, _) => {
+                let l = &mut links[*ex * 2];
+                l.last_mut().unwrap().1 = Some(at);
+                l.push((vec![], None));
+            }
+            (EvB::AccountReconnecting { ex }, _) => {
+                let l = &mut links[*ex * 2 + 1];
+                l.last_mut().unwrap().1 = Some(at);
+                l.push((vec![], None));
+            }
+            (EvB::Market { inst, .. }, barter::EngineEvent::Market(barter_data::streams::consumer::MarketStreamEvent::Item(m))) => {
+                links[w.inst_ex[*inst] * 2].last_mut().unwrap().0.push((at, LinkItem::Market(m)));
+            }
+            (_, barter::EngineEvent::Account(barter::execution::AccountStreamEvent::Item(a))) => {
+                let e = a.exchange.0;
+                links[e * 2 + 1].last_mut().unwrap().0.push((at, LinkItem::Account(a)));
+            }
+            (_, other) => direct.push((at, other)),
+        }
+    }
+    let horizon = 10 * (k + 2);
+    let rt = crate::sim_client::paused_runtime(0x5eed ^ k);
+    rt.block_on(async {
+        let start = tokio::time::Instant::now();
+        let (feed_tx, mut feed_rx) = mpsc_unbounded::<Ev>();
+        for (li, conns) in links.into_iter().enumerate() {
+            let (e, is_market) = (li / 2, li % 2 == 0);
+            let queue = Arc::new(Mutex::new(conns.into_iter().collect::<VecDeque<Conn>>()));
+            let init = move || {
+                let next = queue.lock().unwrap().pop_front();
+                async move {
+                    let Some((items, end)) = next else {
+                        return std::future::pending::<Result<_, String>>().await;
+                    };
+                    let s = futures::stream::unfold((items.into_iter(), end, false), move |(mut it, end, done)| async move {
+                        if done {
+                            return None;
+                        }
+                        match it.next() {
+                            Some((at, item)) => {
+                                tokio::time::sleep_until(start + Duration::from_millis(at)).await;
+                                Some((item, (it, end, false)))
+                            }
+                            None => match end {
+                                Some(at) => {
+                                    tokio::time::sleep_until(start + Duration::from_millis(at)).await;
+                                    None
+                                }
+                                None => std::future::pending().await,
+                            },
+                        }
+                    });
+                    Ok(Box::pin(s))
+                }
+            };
+            let stream = init_reconnecting_stream(init).await.map_err(|e: String| e)?;
+            let key = StreamKey::new_general(if is_market { "market_stream" } else { "account_stream" }, EXS[e]);
+            let composed = stream
+                .with_reconnect_backoff::<_, String>(
+                    ReconnectionBackoffPolicy { backoff_ms_initial: 125, backoff_multiplier: 2, backoff_ms_max: 60_000 },
+                    key,
+                )
+                .with_reconnection_events(EXS[e]);
+            let tx = feed_tx.clone();
+            if is_market {
+                let s = futures::StreamExt::map(composed, |ev| match ev {
+                    barter_data::streams::reconnect::Event::Reconnecting(x) => barter_data::streams::consumer::MarketStreamEvent::Reconnecting(x),
+                    barter_data::streams::reconnect::Event::Item(LinkItem::Market(m)) => barter_data::streams::consumer::MarketStreamEvent::Item(m),
+                    barter_data::streams::reconnect::Event::Item(LinkItem::Account(_)) => unreachable!(),
+                });
+                tokio::spawn(s.forward_to(tx));
+            } else {
+                let s = futures::StreamExt::map(composed, |ev| match ev {
+                    barter_data::streams::reconnect::Event::Reconnecting(x) => barter::execution::AccountStreamEvent::Reconnecting(x),
+                    barter_data::streams::reconnect::Event::Item(LinkItem::Account(a)) => barter::execution::AccountStreamEvent::Item(a),
+                    barter_data::streams::reconnect::Event::Item(LinkItem::Market(_)) => unreachable!(),
+                });
+                tokio::spawn(s.forward_to(tx));
+            }
+        }
+        // commands / trading-state updates go straight into the feed (System::feed_tx)
+        let tx = feed_tx.clone();
+        tokio::spawn(async move {
+            for (at, ev) in direct {
+                tokio::time::sleep_until(start + Duration::from_millis(at)).await;
+                if tx.send(ev).is_err() {
+                    break;
+                }
+            }
+        });
+        drop(feed_tx);
+        let mut arrived = Vec::new();
+        loop {
+            match tokio::time::timeout_at(start + Duration::from_millis(horizon), feed_rx.rx.recv()).await {
+                Ok(Some(ev)) => arrived.push(ev),
+                _ => break,
+            }
+        }
+        Ok(arrived)
+    })
+}
+
 pub fn ev_tag(ev: &EvB) -> String {
     match ev {
         EvB::Market { inst, kind, .. } => format!(
@@ -315,7 +447,8 @@ impl Sim for SimB {
     }
     fn sub_batches(&self) -> Vec<&'static str> {
         match self.prop {
-            PropB::C14 | PropB::C15 => vec!["feed_interleavings"],
+            PropB::C14 => vec!["feed_interleavings", "links_as_real_reconnecting_streams"],
+            PropB::C15 => vec!["feed_interleavings"],
             _ => vec!["fault_free_links", "faulty_links_and_refusals"],
         }
     }
@@ -329,13 +462,17 @@ impl Sim for SimB {
     }
 
     fn plan(&self, rng: &mut Rng, sub: usize) -> ScenarioB {
-        plan_b(
+        let mut sc = plan_b(
             rng,
             &PlanCfg {
                 focus: self.focus(),
-                faults: sub == 1,
+                faults: sub == 1 && self.prop != PropB::C14,
             },
-        )
+        );
+        if self.prop == PropB::C14 && sub == 1 {
+            sc.via_streams = true;
+        }
+        sc
     }
 
     fn execute(&self, sc: &ScenarioB, ctx: &ExecCtx<'_>) -> Outcome {
@@ -356,6 +493,40 @@ impl Sim for SimB {
                     break $l;
                 }
             }};
+        }
+
+        // C14, second sub-batch: the notices must come out of the real reconnect combinators at the
+        // right places for the right exchange before the engine ever sees them
+        if self.prop == PropB::C14 && sc.via_streams {
+            stats.fault("links_are_reconnecting_streams");
+            let expected: Vec<Ev> = sc.steps.iter().filter(|st| w.ev_valid(sc, &st.ev)).map(|st| w.to_event(sc, &st.ev)).collect();
+            match feed_through_reconnecting_links(&w, sc) {
+                Err(e) => {
+                    violation = report(ctx, &mut stats, pid, "K4_feed_through_reconnect_streams", 0, e, None);
+                }
+                Ok(arrived) => {
+                    if arrived != expected {
+                        let k = arrived.iter().zip(expected.iter()).position(|(a, b)| a != b).unwrap_or(arrived.len().min(expected.len()));
+                        violation = report(
+                            ctx,
+                            &mut stats,
+                            pid,
+                            "K4_feed_through_reconnect_streams",
+                            k,
+                            format!(
+                                "events forwarded by the per-link reconnecting streams differ from the link scripts at position {k}: got {:?}, expected {:?} ({} arrived, {} expected)",
+                                arrived.get(k), expected.get(k), arrived.len(), expected.len()
+                            ),
+                            None,
+                        );
+                    } else {
+                        stats.probe("notices_produced_by_reconnect_combinators");
+                    }
+                }
+            }
+            if violation.is_some() {
+                return Outcome { violation, stats, log_hash: log.hash(), signature: log.signature(), log: log.lines };
+            }
         }
 
         'run: for (step, st) in sc.steps.iter().enumerate() {
@@ -1069,7 +1240,7 @@ impl Sim for SimB {
     }
     fn fault_kinds(&self) -> Vec<&'static str> {
         match self.prop {
-            PropB::C14 => vec!["market_link_drop", "account_link_drop"],
+            PropB::C14 => vec!["market_link_drop", "account_link_drop", "links_are_reconnecting_streams"],
             PropB::C15 => vec!["interleaving"],
             _ => vec!["link_unhealthy", "link_closed", "link_healed", "risk_refusal", "link_missing", "unknown_exchange_index"],
         }
@@ -1088,6 +1259,7 @@ impl Sim for SimB {
                 "market_link_healed",
                 "account_link_healed",
                 "several_exchanges_unhealthy",
+                "notices_produced_by_reconnect_combinators",
             ],
             PropB::C15 => vec![
                 "priced_market_event_with_open_position",
